@@ -39,7 +39,7 @@ def family():
         # one SE(3) odometry edge per graph: each one multiplies the number of control paths (normalize sign x error-sign tie-break)
         "se3-odometry": {"v": [(0, "SE3"), (1, "SE3")], "e": [("odo", 1, 0)]},
         "se3-landmarks-params-loaded": {"v": [(4, "SE3"), (-1, "R3"), (6, "SE3")], "e": [("odo", 4, 6), ("lmk", 4, -1, 12), ("lmk", 6, -1, 3)], "params": "registered"},
-        "se3-landmarks-programmatic": {"v": [(4, "SE3"), (-1, "R3"), (6, "R3")], "e": [("lmk", 4, -1, 12), ("lmk", 4, 6, 12), ("lmk", 4, 6, 5)], "params": "none"},
+        "se3-landmarks-programmatic": {"v": [(4, "SE3"), (-1, "R3"), (6, "R3")], "e": [("lmk", 4, -1, 12), ("lmk", 4, 6, 12), ("lmk", 4, 6, 0)], "params": "none"},
         "mixed": {"v": [(0, "SE2"), (1, "SE3"), (2, "R2"), (3, "R3"), (4, "SE3"), (5, "SE2")],
                   "e": [("odo", 5, 0), ("lmk", 0, 2, "identity"), ("lmk", 1, 3, 8), ("lmk", 4, 3, 0)], "params": "registered"},
         "vertices-only": {"v": [(1, "R2"), (2, "R3"), (3, "SE2"), (4, "SE3")], "e": []},
